@@ -7,7 +7,7 @@ from __future__ import annotations
 
 import ast
 
-from tiv.astutil import conds, body_walk, call_name, dotted, enclosing_stmt, guards, kw, norm, short, stores_in, try_context, walk_local, with_context
+from tiv.astutil import conds, body_walk, call_name, dotted, enclosing_stmt, guards, kw, names_loaded, norm, short, stores_in, try_context, walk_local, with_context
 from tiv.cfg import CFG, fmt_path
 from tiv.match import find_stmts, match_expr, match_stmt
 from tiv.mutate import M
@@ -173,8 +173,10 @@ def run(ck, m):
     ck.expect(n3 == 2, f"convert_resize_img: expected 2 guarded rebinding steps (convert, resize), found {n3}")
     grd = m.get(CM, "BaseImage._get_render_data")
     n3b = 0
+    # the composited replacements: `img = <X or something made from X>` where X received `.alpha_composite(img)`
+    comp_recv = {c.func.value.id for c in body_walk(grd) if isinstance(c, ast.Call) and isinstance(c.func, ast.Attribute) and c.func.attr == "alpha_composite" and isinstance(c.func.value, ast.Name)}
     for s in body_walk(grd):
-        if isinstance(s, ast.Assign) and norm(s.targets[0]) == "img" and ("bg" in norm(s.value)):
+        if isinstance(s, ast.Assign) and norm(s.targets[0]) == "img" and (names_loaded(expand(grd, s.value)) & comp_recv):
             n3b += 1
             blk = s._p.body
             i = blk.index(s)
